@@ -41,6 +41,9 @@ type c17Case struct {
 	Engine string
 	Keys   []string
 	Steps  []c17Step
+	// RaceOnExpiry: when the expiry scan is about to delete the index record of an Event, a client update of that
+	// Event lands first (between the scan's snapshot and its delete)
+	RaceOnExpiry bool `json:"race_on_expiry,omitempty"`
 }
 
 func genC17(t *rapid.T) interface{} {
@@ -80,6 +83,7 @@ func genC17(t *rapid.T) interface{} {
 	}
 	// end with two marks, usually more than a TTL apart, with a fresh change of one Event key in between:
 	// the untouched Event may expire, the touched one must survive
+	c.RaceOnExpiry = DrawBool(t, 25, "raceOnExpiry")
 	c.Steps = append(c.Steps, c17Step{Mark: true, Pause: rapid.SampledFrom([]int{0, 10}).Draw(t, "p1")})
 	if DrawBool(t, 75, "touch") {
 		c.Steps = append(c.Steps, c17Step{Pause: rapid.SampledFrom([]int{20, 45, 60}).Draw(t, "p2"), W: &WOp{Kind: rapid.SampledFrom([]string{"update", "update", "create"}).Draw(t, "tk"), K: DrawIntn(t, 2, "tkey"), Exp: "ok"}})
@@ -129,7 +133,7 @@ func c17OpenEngine(name string) (*SeqEnv, error) {
 		env.Shim.TTL = &f
 		return env, nil
 	default:
-		return NewSeqEnv(SeqOpts{Engine: name, Backend: BackendOpts{CacheSize: 1024}})
+		return NewSeqEnv(SeqOpts{Engine: name, UseShim: true, Backend: BackendOpts{CacheSize: 1024}})
 	}
 }
 
@@ -152,6 +156,38 @@ func runC17(ci interface{}, st *CaseStats) error {
 	}
 	lastChange := map[string]time.Time{} // taken BEFORE the write call: measured age over-estimates true age
 	expired := map[string]bool{}
+	raceArmed := c.RaceOnExpiry
+	var raceErr error
+	raced := false
+	if env.Shim != nil {
+		env.Shim.OnDelete = func(idx int, key []byte, current bool) Decision {
+			if !raceArmed || len(key) < 13 {
+				return Pass
+			}
+			uk, rev, derr := shimCoder.Decode(key)
+			if derr != nil || rev != 0 || !isEventKey(string(uk)) {
+				return Pass
+			}
+			if _, live := env.M.Live(string(uk)); !live {
+				return Pass
+			}
+			// the scan is about to remove the index record of an expired Event: a client updates the Event now
+			raceArmed = false
+			for i, k := range c.Keys {
+				if k == string(uk) {
+					t0 := time.Now()
+					if _, err := env.DoWrite(WOp{Kind: "update", K: i, Exp: "ok"}); err != nil {
+						raceErr = err
+					} else {
+						lastChange[k] = t0
+						raced = true
+					}
+				}
+			}
+			return Pass
+		}
+		defer func() { env.Shim.OnDelete = nil }()
+	}
 	var markTimes []time.Time
 	expiredSomething, youngSurvived, lookalikeOld := false, false, false
 	for si, s := range c.Steps {
@@ -281,6 +317,12 @@ func runC17(ci interface{}, st *CaseStats) error {
 			return fmt.Errorf("event %d is %s %q @%d, want %s %q @%d", i, got[i].Type, got[i].Kv.Key, got[i].Revision, want[i].Type, want[i].Key, want[i].Rev)
 		}
 	}
+	if raceErr != nil {
+		return fmt.Errorf("client update racing with the expiry scan: %v", raceErr)
+	}
+	if raced {
+		st.Label("update-lands-between-expiry-snapshot-and-delete")
+	}
 	if expiredSomething {
 		st.Label("an-event-expired")
 	}
@@ -356,6 +398,11 @@ func genC17Backend(t *rapid.T) interface{} {
 		c.Steps = append(c.Steps, c17Step{W: &WOp{Kind: "create", K: i, V: rapid.IntRange(0, 7).Draw(t, "pv")}})
 	}
 	c.Steps = append(c.Steps, c17Step{Mark: true})
+	if DrawBool(t, 40, "recreate") {
+		// an Event deleted and created again before any compaction removes the deletion record
+		k := DrawIntn(t, 2, "rk")
+		c.Steps = append(c.Steps, c17Step{W: &WOp{Kind: "delete", K: k, Exp: "ok"}}, c17Step{W: &WOp{Kind: "create", K: k, V: 2}})
+	}
 	n := rapid.IntRange(1, 4).Draw(t, "nsteps")
 	for i := 0; i < n; i++ {
 		s := c17Step{Pause: rapid.SampledFrom([]int{0, 300, 600, 1100}).Draw(t, "pause")}
@@ -448,8 +495,10 @@ func runC17Backend(ci interface{}, st *CaseStats) error {
 						time.Sleep(1200 * time.Millisecond)
 						raw, _ = c17RawState(env, key)
 						g2, _ := env.B.Get(ctx, &proto.GetRequest{Key: []byte(key)})
-						if g2.GetKv() == nil && (raw.index != nil || raw.versions != 0) && strings.Contains(c.Engine, "nottl") {
-							return fmt.Errorf("step %d: expired Event %q reads as absent but records remain (index=%v versions=%d)", si, key, raw.index != nil, raw.versions)
+						if g2.GetKv() == nil && (raw.index != nil || raw.versions != 0) {
+							// engines with native TTL drop a key's records one by one, but all of them carry the same
+							// expiry: more than a second later nothing of an expired Event may be left
+							return fmt.Errorf("step %d: expired Event %q reads as absent but records remain (index=%v versions=%d): index and versions must go together", si, key, raw.index != nil, raw.versions)
 						}
 					}
 					delete(env.M.Keys, key)
